@@ -100,6 +100,13 @@ fn run_damaged(h: &History, flips: &[u16], cx: &mut Cx) -> CaseResult {
         let _ = w.apply(op);
     }
     std::fs::create_dir_all(cx.dir("r")).unwrap();
+    // In a quarter of the cases the archive also holds the lock file of a collector that was
+    // killed (or is at work elsewhere): what validate owes after a damage does not depend on it.
+    let stale_lock = flips.first().map_or(false, |f| f % 4 == 0);
+    if stale_lock {
+        std::fs::write(w.arch.join("GC_LOCK"), b"{}\n").unwrap();
+        cx.label("damaged-with-gc-lock-present");
+    }
     let pristine = cx.dir("pristine");
     copy_dir(&w.arch, &pristine);
     // Versions with a well-formed tail: a band closed only by the zero-length leftover of a
